@@ -7,7 +7,9 @@ EXTENDS UrlInvariants
 
 (* ---- option records (named deviations of BasicParser) ---- *)
 AltSet(S) == SetDel(SetAdd(S, {124, 126}), {34})       \* the replacement set used by the harness: + '|' '~', - '"'
-GopherSpecial == DefaultSpecial @@ (GOPHER :> Some(70))
+IPFS == <<105, 112, 102, 115>>
+SemanticSpecial == DefaultSpecial @@ (GOPHER :> Some(70))                       \* the table of the Semantic profile
+GopherSpecial == SemanticSpecial @@ (IPFS :> None)                              \* the harness's table: two added schemes, with and without a default port
 OptsOf(name) ==
   CASE name = "special_gopher" -> [DefaultOpts EXCEPT !.special = GopherSpecial]
     [] name = "special_nofile" -> [DefaultOpts EXCEPT !.special = [sch \in (DOMAIN DefaultSpecial) \ {FILE} |-> DefaultSpecial[sch]]]
@@ -39,7 +41,7 @@ HasDoubleSlash(s) == LET p == Pre(s) IN \E i \in 1..(Len(p) - 1) : IsSlash(p[i])
 HasBar(s) == Contains(s, 124)
 SchemeIs(s, sch) == LET p == Pre(s) IN Len(p) > Len(sch) /\ LowerSeq(SubSeq(p, 1, Len(sch))) = sch /\ p[Len(sch) + 1] = 58
 AnyOf(P(_), in, bs) == P(in) \/ (bs # <<>> /\ P(bs[1]))
-IsGopher(s) == SchemeIs(s, GOPHER)
+IsGopher(s) == SchemeIs(s, GOPHER) \/ SchemeIs(s, IPFS)        \* the input names one of the added schemes
 Trigger(name, in, bs) ==
   CASE name = "accept_invalid" -> AnyOf(HasRaw, in, bs)
     [] name = "single_pct" -> AnyOf(HasBadPct, in, bs)
